@@ -107,8 +107,8 @@ def run(ctx):
     for name, recs in (("encode", enc), ("decode", dec)):
         for a in recs:
             loops.setdefault(name, set()).add(tuple(it for _, it in a.loops))
-            for swp_t, t in arms(a.target):
-                for swp_v, v in arms(a.value):
+            for swp_t, t in arms(fx.expand(a.target)):
+                for swp_v, v in arms(fx.expand(a.value)):
                     swp = swap_of(a)
                     for s in (swp_t, swp_v):
                         if s is not None:
